@@ -952,6 +952,36 @@ def oracle_case(R, case: Dict[str, Any]) -> Optional[str]:
     return None
 
 
+def platform_rank_case(rng, cfg, tags, legacy_only: bool) -> Optional[Dict[str, Any]]:
+    """wheels of one version that differ ONLY in their platform tag, each tag taken from packaging's supported list
+    for the configuration (legacy_only: the manylinux1/2010/2014 alias names), plus the sdist: the ranking must not
+    depend on the listing order.  Tags of equal specificity (manylinux2014 == manylinux_2_17) are not mixed."""
+    plats = sorted({p for (_, _, p) in tags if p != "any"})
+    if legacy_only:
+        plats = [p for p in plats if p.startswith(("manylinux1_", "manylinux2010_", "manylinux2014_"))]
+    pyabi = [(py, abi) for (py, abi, p) in tags if p != "any"]
+    if len(plats) < 2 or not pyabi:
+        return None
+    py, abi = rng.choice(pyabi)
+    files, sigs = [], set()
+    for p in rng.sample(plats, min(len(plats), rng.choice([2, 3, 3, 4]))):
+        if _known_defect(cfg, py, abi, p):
+            continue
+        fn = "demo_pkg-1.0-{}-{}-{}.whl".format(py, abi, p)
+        sig = _spec_score(cfg, py, abi, p, fn)
+        if sig is None or sig in sigs:
+            continue
+        sigs.add(sig)
+        files.append(fn)
+    if len(files) < 2:
+        return None
+    if rng.random() < 0.7:
+        files.insert(rng.randrange(len(files) + 1), "demo_pkg-1.0.tar.gz")
+    sh = files[:]
+    rng.shuffle(sh)
+    return {"kind": "rank", "cfg": cfg, "files": files, "shuffled": sh}
+
+
 def oracle_cases(rng, R, n: int):
     """fresh inputs inside the guard of the _partial theorems (known defects are not generated)"""
     for _ in range(n):
@@ -960,6 +990,11 @@ def oracle_cases(rng, R, n: int):
             raw["glibc"] = [2, raw["glibc"][1]]
         cfg = impl_cfg_of(R, raw)
         r = rng.random()
+        if r < 0.12:
+            c = platform_rank_case(rng, cfg, packaging_tags(raw), legacy_only=rng.random() < 0.5)
+            if c is not None:
+                yield c
+            continue
         if r < 0.4:
             tags = packaging_tags(raw)
             py, abi, plat = rng.choice(tags)
@@ -1010,14 +1045,14 @@ def _shrink(R, s: Dict[str, Any]) -> Dict[str, Any]:
         changed = False
         for i in range(len(files)):
             t = files[:i] + files[i + 1:]
-            cand = {"kind": "rank", "cfg": s["cfg"], "files": t, "shuffled": list(reversed(t))}
+            cand = {"kind": "rank", "cfg": s["cfg"], "files": t, "shuffled": list(reversed(t)), "unpatched": s.get("unpatched", False)}
             try:
                 if len(t) >= 2 and oracle_case(R, cand):
                     files, changed = t, True
                     break
             except Exception:
                 pass
-    out = {"kind": "rank", "cfg": s["cfg"], "files": files, "shuffled": list(reversed(files))}
+    out = {"kind": "rank", "cfg": s["cfg"], "files": files, "shuffled": list(reversed(files)), "unpatched": s.get("unpatched", False)}
     return out if oracle_case(R, out) else s
 
 
@@ -1069,6 +1104,15 @@ def _search(ctx: Ctx) -> Optional[Dict[str, Any]]:
         for newer in ((g[0], g[1] + 1), (g[0], g[1] + 9), (g[0] + 1, 0)):
             s = {"kind": "foreign", "cfg": rcfg, "why": "glibc (system has {}.{})".format(*g), "unpatched": True,
                  "file": "x-1.0-py{}-none-manylinux_{}_{}_{}.whl".format(rr["major"], newer[0], newer[1], rr["arch"])}
+            why = oracle_case(R, s)
+            if why:
+                return {"input": s, "why": why}
+    # 2b. running interpreter: wheels differing only in the platform tag (legacy alias names first)
+    run_tags = [(t.interpreter, t.abi, t.platform) for t in PT.sys_tags()]
+    for legacy_only in (True, True, True, False, False, False, False, False):
+        s = platform_rank_case(rng, rcfg, run_tags, legacy_only)
+        if s is not None:
+            s["unpatched"] = True
             why = oracle_case(R, s)
             if why:
                 return {"input": s, "why": why}
